@@ -86,6 +86,7 @@ class Connection(object):
     self.state = None           # server-side parser state
     self.opened_at = None
     self.closed_at = None
+    self.started_at = CLOCK.now
 
   # -- server -> client ----------------------------------------------------
   def _push_s2c(self, item, delay):
@@ -108,6 +109,16 @@ class Connection(object):
       return
     for chunk in self.net.chunks(data):
       self._push_s2c(('data', bytes(chunk)), delay)
+
+  def server_send_at(self, data, when):
+    """Deliver (chunked, in order) at exactly `when` (no latency added)."""
+    if self.dead or self.silent or not data:
+      return
+    for chunk in self.net.chunks(data):
+      due = max(when, self._s2c_due + 1e-7, CLOCK.now)
+      self._s2c_due = due
+      self.s2c.append(('data', bytes(chunk)))
+      self.net.loop.schedule_at(due, self._pop_s2c, kind='net.s2c')
 
   def server_close(self, delay=0.0):
     """Orderly close by the peer: EOF after everything already sent."""
